@@ -470,6 +470,16 @@ def history(ctx: Any) -> List[Ob]:
                 if not good:
                     why = 'the RRSet is not built from the answers of every packet'
     obs.append(ob(R, ar, rec_calls[0] if rec_calls else 'add_question_at_time', 'a heard QM question is remembered with the union of the known answers of all packets of the (possibly truncated) query -- the same set used for suppression', good, why))
+    # ... and that set exists when the question is recorded: it is built lazily (on the first QM question), so the first QM
+    # question of a query must find it built -- a `None` stored in the history makes the next suppression test raise
+    if rec_calls and isinstance(rec_calls[0].args[2], ast.Name):
+        sv = rec_calls[0].args[2].id
+        arcfg = cfg_of(ar.node)
+        sloops = [n for n in arcfg.nodes if n.kind == 'for' and not n.in_loop and any(c is rec_calls[0] for m_ in arcfg.nodes if m_.in_loop and n.ast in m_.in_loop for c in m_.calls())]
+        if len(sloops) == 1:
+            oc_r, _ = fd.run_paths(prog, ar.module, arcfg, {'.unique': False}, lambda n, e: [('REC', e.ev(c.args[2]) is None) for c in fd.node_calls(n, e) if c is rec_calls[0]], start=sloops[0], stop=lambda n: n is sloops[0], init_locals={sv: None}, loop_bound=1, for_iter=lambda n, e: True)
+            recs = {x[1] for t in oc_r for x in t if isinstance(x, tuple) and x[0] == 'REC'}
+            obs.append(ob(R, ar, rec_calls[0], 'the first QM question of a query is recorded with a known-answer set that has been built (not with the unset placeholder)', recs == {False}, f'recorded with an unset set: {sorted(recs)}'))
     return obs
 
 
